@@ -109,11 +109,11 @@ static struct fdinfo g_fds[MAXFD];
 
 enum kind {
   K_OPENR, K_OPENW, K_OPENDIR, K_READ, K_WRITE, K_READDIR, K_SHORT_READ, K_SHORT_WRITE,
-  K_EINTR_READ, K_EINTR_WRITE, K_EINTR_OPEN, K_CLOCKJUMP, K_CRASH, K_RENAME, K_STATSIZE, K_NKINDS
+  K_EINTR_READ, K_EINTR_WRITE, K_EINTR_OPEN, K_CLOCKJUMP, K_CRASH, K_RENAME, K_STATSIZE, K_TTY, K_NKINDS
 };
 static const char *kind_names[] = {"openr", "openw", "opendir", "read", "write", "readdir",
                                    "short_read", "short_write", "eintr_read", "eintr_write",
-                                   "eintr_open", "clockjump", "crash", "rename", "statsize"};
+                                   "eintr_open", "clockjump", "crash", "rename", "statsize", "tty"};
 struct rule {
   int kind;
   char sel[RELMAX];
@@ -208,7 +208,7 @@ static void parse_plan(const char *plan) {
     if (when[0] == '+') { r->by_offset = 1; r->when = atol(when + 1); }
     else r->when = atol(when);
     switch (r->kind) {
-      case K_SHORT_READ: case K_SHORT_WRITE: case K_CLOCKJUMP: case K_CRASH: case K_STATSIZE:
+      case K_SHORT_READ: case K_SHORT_WRITE: case K_CLOCKJUMP: case K_CRASH: case K_STATSIZE: case K_TTY:
         r->arg = atol(arg); break;
       case K_EINTR_READ: case K_EINTR_WRITE: case K_EINTR_OPEN:
         r->arg = EINTR; break;
@@ -756,6 +756,33 @@ int statx(int dirfd, const char *path, int flags, unsigned int mask, struct stat
   return r;
 }
 
+/* ------------------------------------------------------------------ terminal-ness
+ * `tty:@1:0:1` / `tty:@2:0:1`: isatty() of that descriptor answers 1 (the output still goes to the
+ * harness's file). What a tool prints as formatted text, writes to files and returns as exit
+ * status must not depend on whether somebody is watching. (Never for fd 0: a tool may
+ * legitimately refuse to read a document from a terminal.) */
+static int (*real_isatty)(int);
+int isatty(int fd) {
+  vsim_init();
+  if (!real_isatty) real_isatty = dlsym(RTLD_NEXT, "isatty");
+  if (g_world && (fd == 1 || fd == 2)) {
+    char sel[4];
+    snprintf(sel, sizeof sel, "@%d", fd);
+    for (int i = 0; i < g_nrules; i++) {
+      struct rule *ru = &g_rules[i];
+      if (ru->kind == K_TTY && !strcmp(ru->sel, sel)) {
+        pthread_mutex_lock(&g_lock);
+        event_begin("isatty", sel);
+        ru->fired = 1;
+        trace_line("isatty", sel, fd, 1, 0, i);
+        pthread_mutex_unlock(&g_lock);
+        return 1;
+      }
+    }
+  }
+  return real_isatty ? real_isatty(fd) : 0;
+}
+
 /* ------------------------------------------------------------------ mutating path calls: logged only */
 #define LOG_PATH_CALL(sym, dirfd, path, call)                         \
   do {                                                                \
@@ -830,6 +857,11 @@ int ftruncate(int fd, off_t l) { return ftruncate64(fd, l); }
  * NULL. Reference world A leaves it NULL. A library whose result depends on any environment
  * variable therefore disagrees between the two worlds, whatever the variable is called. */
 static char *(*real_getenv)(const char *);
+static int getenv_world(void) {
+  static int w = -1;
+  if (w < 0) { char *x = real_getenv ? real_getenv("VSIM_ROOT") : NULL; w = (x && x[0] == '/') ? 1 : 0; }
+  return w;
+}
 static int g_env_junk = -1;
 static __thread int t_clock_sim;
 char *getenv(const char *name) {
@@ -839,7 +871,9 @@ char *getenv(const char *name) {
     char *j = real_getenv ? real_getenv("VSIM_ENVJUNK") : NULL;
     g_env_junk = (j && j[0] == '1') ? 1 : 0;
   }
-  if (r || !g_env_junk || !t_clock_sim || !name) return r;
+  /* engine B: only from inside a library call; engine A (world process): everywhere */
+  if (r || !g_env_junk || !(t_clock_sim || getenv_world()) || !name) return r;
+  if (!strncmp(name, "TMP", 3) || !strncmp(name, "TEMP", 4) || !strcmp(name, "HOME") || !strncmp(name, "XDG_", 4)) return r;
   if (!strncmp(name, "RUST", 4) || !strncmp(name, "MIRI", 4) || !strncmp(name, "LD_", 3) || !strncmp(name, "VSIM", 4) ||
       !strncmp(name, "MALLOC", 6) || !strncmp(name, "GLIBC", 5))
     return r;
